@@ -35,6 +35,9 @@ func (c *Choices) Intn(n int) int {
 		// still consume nothing: a forced choice is not a choice
 		return 0
 	}
+	if len(c.rec) > 2_000_000 {
+		panic("simk: choice budget exceeded (generator loop that does not terminate on an all-zero tape?)")
+	}
 	var v uint32
 	if c.replay {
 		if c.pos < len(c.tape) {
